@@ -447,6 +447,10 @@ pub const EXTREMES: &[&str] = &[
   "time(10, 0, 0, duration(\"-PT23H59M59S\"))",
   "date and time(\"2021-10-31T02:30:00@Europe/Warsaw\") + duration(\"PT1H\")",
   "date and time(date(\"2021-03-28\"), time(\"02:30:00@Europe/Warsaw\"))",
+  // numbers that are not finite (the arithmetic lets them escape, see the C02 findings): no consumer may crash on them
+  "decimal(1000000000000000000000000000000.5, 10)",
+  "exp(99999)",
+  "-exp(99999)",
 ];
 
 fn build_extremes(results: &mut std::fs::File) -> Vec<Value> {
@@ -487,11 +491,11 @@ fn bif_max_arity(tier: &str) -> u32 {
 }
 
 /// quick: arity 0..2 over all values, arity 3 over a 9-value core; thorough: arity 0..3 over all values, arity 4 over the core
-const CORE: &[usize] = &[0, 2, 4, 6, 9, 13, 15, 18, 21, 30, 34, 24, 37];
+const CORE: &[usize] = &[0, 2, 4, 6, 9, 13, 15, 18, 21, 30, 34, 24, 37, 52, 53];
 
 /// quick only: arity 4 over a 7-value core (a number, null, a string, a small duration, a date-time in a daylight-saving gap,
 /// a time in a named zone, a date), so that 4-argument forms such as time(h, m, s, offset) are reached on every change
-const CORE4: &[usize] = &[0, 3, 13, 30, 24, 37, 21];
+const CORE4: &[usize] = &[0, 3, 13, 30, 24, 37, 21, 52, 53];
 
 fn bif_tuples(tier: &str) -> u64 {
   let n = EXTREMES.len() as u64;
